@@ -197,6 +197,18 @@ CHECKS["C20"] = ("Middleware.tla",
     "Trusted: TLC, servers.py. Finite inner responses only (the ASGI capture buffers the inner response).",
     "DESIGN.md 5 C20")
 
+CHECKS["C04"] = ("Http.tla",
+    "TLC enumerates the abstract request space of Http.tla with its view rules (ChunkingIrrelevant, NamesLower, "
+    "NoDuplicateNames); differential replay: every request through a view on both stacks (three chunkings) compared with each "
+    "other and with the model's view; every response recipe and bundled application (router, mounts, hosts, static files, "
+    "pages, shortcuts) x requests compared for status, header multiset and body",
+    "Methods x paths (non-ASCII, percent sequences, empty) x queries x header lists (mixed case, repeated, cookies, content "
+    "types, bad numbers/dates) x bodies (JSON, urlencoded, multipart with a file, junk); 32 response recipes x 8 request variants; "
+    "4 application recipes. Reduced strength: the model contributes the product space and an independent referee for the view, "
+    "not state-space insight. Two known findings (non-ASCII path text on WSGI) are listed.",
+    "Trusted: TLC, harness/servers.py (its environ/scope construction defines 'the same abstract request').",
+    "DESIGN.md 5 C04, 7")
+
 NOT_YET = {}
 
 ALL = ["C%02d" % i for i in range(1, 21)]
